@@ -122,15 +122,26 @@ def edited_index_pass(case, dense, commons, shape, tails, rec):
     what = "ccube.%s" % case["agg"]
     with warnings.catch_warnings():
         warnings.simplefilter("ignore")
-        with libcall(what + " before / after an entry is withdrawn in place"):
-            Q.call_agg(ccube(idxs, shape), case["agg"], farg, warg, case["ignore"], case["rma"], prob=case["prob"])
+        with libcall(what + " before / after an in-place edit of a dimension"):
+            kept = ccube(idxs, shape)  # ONE cube object serves both tabulations (every second case: a new cube object)
+            Q.call_agg(kept, case["agg"], farg, warg, case["ignore"], case["rma"], prob=case["prob"])
             key = keys[len(keys) // 2]
-            rows = idxs[j][key]
-            idxs[j].difference_update({key: numpy.array(rows, copy=True)})
-            res = Q.call_agg(ccube(idxs, shape), case["agg"], farg, warg, case["ignore"], case["rma"], prob=case["prob"])
+            rows = numpy.array(idxs[j][key], copy=True)
+            dense2 = [a.copy() for a in dense]
+            same_col = [k for k in keys if k[1:] == key[1:] and k != key]
+            if same_col and N % 3 != 0:
+                # recode: the rows of one listed category move to another category already listed in that column
+                # (shape, common value, number of entries... may all stay what they were)
+                moved = rows[: max(1, len(rows) // 2)]
+                idxs[j].update({same_col[0]: moved})
+                dense2[j][(moved,) + tuple(key[1:])] = same_col[0][0]
+                rec.note("in-place recode between two listed categories")
+            else:
+                idxs[j].difference_update({key: rows})  # the whole entry is withdrawn
+                dense2[j][(rows,) + tuple(key[1:])] = commons[j]
+            cube2 = kept if N % 2 else ccube(idxs, shape)
+            res = Q.call_agg(cube2, case["agg"], farg, warg, case["ignore"], case["rma"], prob=case["prob"])
         wv, wm = Q.normalise(res, case["rma"], what)
-        dense2 = [a.copy() for a in dense]
-        dense2[j][(numpy.asarray(rows),) + tuple(key[1:])] = commons[j]
         for pos in itertools.product(*[itertools.product(*[range(e) for e in t]) for t in tails]):
             flat = tuple(x for p in pos for x in p)
             sub = [a[(slice(None),) + p] for a, p in zip(dense2, pos)]
@@ -141,8 +152,8 @@ def edited_index_pass(case, dense, commons, shape, tails, rec):
             same_m = gm is None or numpy.array_equal(gm, bm)
             sel = numpy.ones(gv.shape, dtype=bool) if gm is None else ~gm
             if gv.shape != bv.shape or not same_m or not numpy.allclose(gv[sel], bv[sel], rtol=1e-12, atol=0.0, equal_nan=True):
-                raise Violation("%s: after entry %r of dimension %d was withdrawn in place (difference_update), block %s "
-                                "differs from the cube of the edited one-axis slices" % (what, key, j, flat),
+                raise Violation("%s: after dimension %d was edited in place (entry %r recoded / withdrawn), block %s "
+                                "differs from the cube of the edited one-axis slices" % (what, j, key, flat),
                                 sig=what + " block stale after an in-place edit of a dimension")
     rec.note("re-tabulated after an in-place edit")
 
